@@ -4,6 +4,7 @@ import (
 	"bufio"
 	"bytes"
 	"context"
+	"errors"
 	"fmt"
 	"io"
 	"log"
@@ -465,7 +466,9 @@ func (n *Node) teardown() error {
 	}
 	for _, f := range []*os.File{n.logFile, n.stdoutFile} {
 		if f != nil {
-			if err := f.Sync(); err != nil {
+			// A target that cannot be synchronised at all (a device such as
+			// /dev/null, a FIFO) is not a failed write.
+			if err := f.Sync(); err != nil && !errors.Is(err, unix.EINVAL) && !errors.Is(err, unix.ENOTSUP) {
 				lastErr = err
 			}
 			_ = f.Close()
